@@ -55,7 +55,13 @@ bool RSNHandshakeCapturer::process_packet(const PDU& pdu) {
         
     // 1st packet
     if (eapol->key_t() && eapol->key_ack() && !eapol->key_mic() && !eapol->install()) {
-        handshakes_[addresses].assign(eapol, eapol + 1);
+        // A retransmission of the first message we already have (same replay
+        // counter) must not discard what we captured after it
+        handshake_map::iterator iter = handshakes_.find(addresses);
+        if (iter == handshakes_.end() || iter->second.empty() ||
+            iter->second[0].replay_counter() != eapol->replay_counter()) {
+            handshakes_[addresses].assign(eapol, eapol + 1);
+        }
     }
     // 2nd and 4th packets
     else if (eapol->key_t() && !eapol->key_ack() && eapol->key_mic() && !eapol->install()) {
@@ -89,8 +95,9 @@ bool RSNHandshakeCapturer::do_insert(const handshake_map::key_type& key,
     handshake_map::iterator iter = handshakes_.find(key);
     if (iter != handshakes_.end()) {
         if (iter->second.size() != expected) {
-            // skip repeated
-            if (iter->second.size() != expected + 1) {
+            // Skip repeated messages (retransmissions of one we already have).
+            // Only discard the handshake if a previous message is missing.
+            if (iter->second.size() < expected) {
                 iter->second.clear();
             }
         }
